@@ -173,7 +173,7 @@ def run(ctx):
                         base = {}
                     if kw in ("core", "bump_core", "extra_core", "bump_extra_core", "build", "bump_build"):
                         base["schema_ron"] = "(core:[uint(1), var(Major)], extra_core:[uint(2)], build:[uint(3)])"
-                for trial in range(3 if quick else 8):
+                for trial in range(3 if quick else 16):
                     val = valid_value(rng, func, kw, ctxd)
                     if kw == "source" and val == "stdin":
                         base2 = {"stdin": obj}
@@ -233,7 +233,7 @@ def run(ctx):
                         _compare(ctx, res, r, case, iargv)
         ctx.count("keywords_total", nkw)
         # random subsets
-        nsub = 350 if quick else 4000
+        nsub = 350 if quick else 12000
         for i in range(nsub):
             func = rng.choice(["version", "version", "flow", "flow", "render", "check"])
             sig = inspect.signature(getattr(z, func))
@@ -266,7 +266,7 @@ def run(ctx):
             if i < 2:
                 ctx.sample(dict(call="%s(%s)" % (func, ", ".join("%s=%r" % kv for kv in kwargs.items())), argv=record[0][1:] if record else None))
         # the same call repeated while the repository changes underneath: the wrapper must follow the command line each time
-        for step in range(6 if quick else 30):
+        for step in range(6 if quick else 60):
             kwargs = rng.choice([{"repo_path": repo.path}, {"repo_path": repo.path, "output_format": "pep440"}, {"repo_path": repo.path, "output_format": "zerv"}])
             fn = rng.choice(["version", "flow"])
             for _ in range(2):
